@@ -27,6 +27,15 @@ func coreC19(tier string) []RunSpec {
 			out = append(out, RunSpec{Profile: "core:crash:" + c19CrashOps[oi], Params: map[string]int{"crashop": oi, "k": k}})
 		}
 	}
+	// lost responses / requests at the k-th HTTP request of each operation
+	for oi := range c19CrashOps {
+		for k := 1; k <= 8; k++ {
+			out = append(out, RunSpec{Profile: "core:resploss:" + c19CrashOps[oi], Params: map[string]int{"crashop": oi, "k": k, "fkind": 1}})
+		}
+		for k := 1; k <= 4; k++ {
+			out = append(out, RunSpec{Profile: "core:reqloss:" + c19CrashOps[oi], Params: map[string]int{"crashop": oi, "k": k, "fkind": 2}})
+		}
+	}
 	// restore-then-continue-then-restore, and more than 300 outputs on one keyset
 	out = append(out, RunSpec{Profile: "core:restore-continue", Params: map[string]int{"scenario": 1}})
 	out = append(out, RunSpec{Profile: "core:restore-continue-rot", Params: map[string]int{"scenario": 1, "rot": 1}})
@@ -73,8 +82,12 @@ func runC19(rc *RunCtx) {
 			ww.StepRestore(true)
 		case 3:
 			op := c19CrashOps[T.Choose("crash.op", len(c19CrashOps))]
+			fk := []string{"crash", "crash", "resploss", "reqloss"}[T.Choose("crash.kind", 4)]
 			k := 1 + T.Choose("crash.k", 24)
-			ww.crashOp(ww.pickWallet(), op, k)
+			if fk != "crash" {
+				k = 1 + k%8
+			}
+			ww.faultOp(ww.pickWallet(), op, k, fk)
 		}
 		checked = ww.CheckCounters(checked)
 	})
@@ -86,15 +99,23 @@ func runC19(rc *RunCtx) {
 
 // crashOp runs one wallet operation with a crash of the wallet process at its k-th storage/HTTP seam,
 // then reloads the wallet on the same directory.
-func (ww *WW) crashOp(w, op string, k int) (fired bool) {
+func (ww *WW) crashOp(w, op string, k int) (fired bool) { return ww.faultOp(w, op, k, "crash") }
+
+// faultOp runs one wallet operation with a fault: "crash" kills the wallet process at its k-th storage/HTTP seam
+// (then reloads it); "resploss"/"reqloss" lose the response / request of its k-th HTTP request (the wallet sees a
+// connection error; with a lost response the mint has executed the request).
+func (ww *WW) faultOp(w, op string, k int, fkind string) (fired bool) {
 	W := ww.W
 	n := ww.node(w)
 	if n.W == nil {
 		return false
 	}
 	mint := mintNameOfURL(n.Mint)
-	plan := &FaultPlan{Node: w, Kind: "crash", Pos: k}
-	ww.op(fmt.Sprintf("w.%s crash@%d", op, k))
+	var plans []*FaultPlan
+	if fkind == "crash" {
+		plans = []*FaultPlan{{Node: w, Kind: "crash", Pos: k}}
+	}
+	ww.op(fmt.Sprintf("w.%s %s@%d", op, fkind, k))
 	var tok *OutToken
 	if op == "receive" {
 		// something to receive: a token from another wallet
@@ -127,7 +148,13 @@ func (ww *WW) crashOp(w, op string, k int) (fired bool) {
 		}
 	}
 	inv := W.LN.NewExternalInvoice(5000)
-	crashed := W.WalletOp(w, ww.name("crash."+w), []*FaultPlan{plan}, func(wl *wallet.Wallet) {
+	lossBefore := W.S.Stats["fault_net_resp_loss"] + W.S.Stats["fault_net_req_loss"]
+	if fkind == "resploss" {
+		W.Net.Faults[w] = &NetFault{RespLoss: true, Skip: k - 1}
+	} else if fkind == "reqloss" {
+		W.Net.Faults[w] = &NetFault{ReqLoss: true, Skip: k - 1}
+	}
+	crashed := W.WalletOp(w, ww.name("crash."+w), plans, func(wl *wallet.Wallet) {
 		switch op {
 		case "mint":
 			q, e := wl.RequestMint(37, ww.mintURL(mint))
@@ -153,6 +180,16 @@ func (ww *WW) crashOp(w, op string, k int) (fired bool) {
 			wl.Melt(q.Quote)
 		}
 	})
+	delete(W.Net.Faults, w)
+	if fkind != "crash" {
+		lost := W.S.Stats["fault_net_resp_loss"]+W.S.Stats["fault_net_req_loss"] > lossBefore
+		if lost {
+			// after a lost message the wallet is not in fault-free operation any more (counter clause)
+			ww.Crashed[w] = true
+			ww.rc.S.Probe("c19_wallet_" + fkind + "_" + op)
+		}
+		return lost
+	}
 	if crashed {
 		ww.Crashed[w] = true
 		ww.rc.S.Probe("c19_wallet_crashed_" + op)
@@ -170,7 +207,8 @@ func (ww *WW) crashOp(w, op string, k int) (fired bool) {
 func c19Crash(ww *WW, op string, k int) {
 	w := ww.Wallets[0]
 	ww.step = 0
-	fired := ww.crashOp(w, op, k)
+	fkind := []string{"crash", "resploss", "reqloss"}[ww.rc.P("fkind", 0)]
+	fired := ww.faultOp(w, op, k, fkind)
 	ww.rc.Nontrivial = fired
 	ww.Settle()
 	// restore into an empty directory recovers every unspent deterministic proof
